@@ -26,12 +26,13 @@ type sop struct {
 
 type seqScript struct {
 	Engine int   `json:"engine"`
+	CD     bool  `json:"close_on_context_done,omitempty"`
 	FS     bool  `json:"fs"` // InstantiateModule uses a WASI guest that opens a file of a counting FS mount
 	Ops    []sop `json:"ops"`
 }
 
 func genSeq(r *core.Rng, engine int) *seqScript {
-	s := &seqScript{Engine: engine, FS: r.Chance(1, 4)}
+	s := &seqScript{Engine: engine, FS: r.Chance(1, 4), CD: r.Chance(1, 3)}
 	n := 4 + r.Intn(17)
 	var producers []int
 	for i := 0; i < n; i++ {
@@ -45,8 +46,14 @@ func genSeq(r *core.Rng, engine int) *seqScript {
 		} else if (so.K == kInst || so.K == kInstBin) && r.Chance(1, 3) {
 			so.F = 1 + r.Intn(2) // holds an open file; for half of them its Close fails
 		}
-		switch o.K {
-		case kClose, kCloseX, kIsClosed:
+		if s.CD && !s.FS && so.K.onHandle() && r.Chance(1, 3) {
+			so.K = kCtxClose // a call cut by cancel (X even) or deadline (X odd)
+			so.X = uint32(r.Intn(2))
+		} else if so.K == kIsClosed && r.Bool() {
+			so.K = kCall
+		}
+		switch {
+		case so.K.onHandle():
 			if len(producers) == 0 {
 				so.K = kInst
 			} else if r.Chance(2, 3) {
@@ -84,8 +91,8 @@ type seqRun struct {
 // it closes the runtime and runs the quiescence checks.
 func replaySeq(s *seqScript) *seqRun {
 	run := &seqRun{ops: map[string]int{}, opID: make([]int, len(s.Ops))}
-	h := &hist{stamp: true, engine: s.Engine}
-	h.rt = wazero.NewRuntimeWithConfig(bg, rtConfig(s.Engine))
+	h := &hist{stamp: true, engine: s.Engine, cd: s.CD}
+	h.rt = wazero.NewRuntimeWithConfig(bg, rtConfig(s.Engine, s.CD))
 	defer h.rt.Close(bg)
 	instantiateEnv(h.rt)
 	var err error
@@ -110,7 +117,7 @@ func replaySeq(s *seqScript) *seqRun {
 	for i, o := range s.Ops {
 		sp := opSpec{K: o.K, N: o.N, X: o.X, CC: o.CC, F: o.F, S: o.S, N2: o.N2}
 		var hs []api.Module
-		if o.K == kClose || o.K == kCloseX || o.K == kIsClosed {
+		if o.K.onHandle() {
 			if o.Ref < 0 || o.Ref >= i || results[o.Ref] == nil {
 				continue // producer gone or produced nothing
 			}
@@ -248,7 +255,7 @@ func family(k opKind) string {
 	switch {
 	case k.isInst():
 		return "instantiate"
-	case k == kClose || k == kCloseX:
+	case k == kClose || k == kCloseX || k == kCtxClose:
 		return "close"
 	case k == kCompile || k == kHostComp:
 		return "compile"
@@ -277,7 +284,7 @@ func without(ops []sop, i int) []sop {
 // shows the same class of divergence, then simplifies operation flavours.
 // Sequential replays are deterministic, so this names the trigger.
 func shrink(s *seqScript, d *divergence) (*seqScript, *seqRun) {
-	cur := &seqScript{Engine: s.Engine, FS: s.FS, Ops: append([]sop(nil), s.Ops...)}
+	cur := &seqScript{Engine: s.Engine, FS: s.FS, CD: s.CD, Ops: append([]sop(nil), s.Ops...)}
 	if d.At < len(cur.Ops) {
 		cur.Ops = cur.Ops[:d.At+1]
 	}
@@ -297,7 +304,7 @@ func shrink(s *seqScript, d *divergence) (*seqScript, *seqRun) {
 		if o.Ref >= 0 && o.Ref < len(cur.Ops) && cur.Ops[o.Ref].K == kLookup && best.opID[o.Ref] != 0 {
 			for j := 0; j < o.Ref; j++ {
 				if cur.Ops[j].K.isInst() && best.opID[j] == best.opID[o.Ref] {
-					c := &seqScript{Engine: cur.Engine, FS: cur.FS, Ops: append([]sop(nil), cur.Ops...)}
+					c := &seqScript{Engine: cur.Engine, FS: cur.FS, CD: cur.CD, Ops: append([]sop(nil), cur.Ops...)}
 					c.Ops[i].Ref = j
 					if r := same(c); r != nil {
 						cur, best = c, r
@@ -311,7 +318,7 @@ func shrink(s *seqScript, d *divergence) (*seqScript, *seqRun) {
 		for changed := true; changed; {
 			changed = false
 			for i := len(cur.Ops) - 1; i >= 0; i-- {
-				c := &seqScript{Engine: cur.Engine, FS: cur.FS, Ops: without(cur.Ops, i)}
+				c := &seqScript{Engine: cur.Engine, FS: cur.FS, CD: cur.CD, Ops: without(cur.Ops, i)}
 				if r := same(c); r != nil {
 					if r.div.At < len(c.Ops) {
 						c.Ops = c.Ops[:r.div.At+1]
@@ -332,7 +339,7 @@ func shrink(s *seqScript, d *divergence) (*seqScript, *seqRun) {
 			if alt.S == cur.Ops[i].S && alt.X == cur.Ops[i].X {
 				continue
 			}
-			c := &seqScript{Engine: cur.Engine, FS: cur.FS, Ops: append([]sop(nil), cur.Ops...)}
+			c := &seqScript{Engine: cur.Engine, FS: cur.FS, CD: cur.CD, Ops: append([]sop(nil), cur.Ops...)}
 			c.Ops[i].S, c.Ops[i].X = alt.S, alt.X
 			if r := same(c); r != nil && r.div.At == best.div.At {
 				cur, best = c, r
@@ -341,10 +348,10 @@ func shrink(s *seqScript, d *divergence) (*seqScript, *seqRun) {
 		}
 	}
 	ddmin()
-	simpler := map[opKind]opKind{kInstBin: kInst, kHostInst: kInst, kCloseX: kClose, kHostComp: kCompile}
+	simpler := map[opKind]opKind{kInstBin: kInst, kHostInst: kInst, kCloseX: kClose, kHostComp: kCompile, kCtxClose: kClose, kCall: kIsClosed}
 	for i := range cur.Ops {
 		if k, ok := simpler[cur.Ops[i].K]; ok {
-			c := &seqScript{Engine: cur.Engine, FS: cur.FS, Ops: append([]sop(nil), cur.Ops...)}
+			c := &seqScript{Engine: cur.Engine, FS: cur.FS, CD: cur.CD, Ops: append([]sop(nil), cur.Ops...)}
 			c.Ops[i].K = k
 			if r := same(c); r != nil && r.div.At == best.div.At {
 				cur, best = c, r
@@ -354,7 +361,7 @@ func shrink(s *seqScript, d *divergence) (*seqScript, *seqRun) {
 	// held files: none if it does not matter, else one that closes fine
 	for i := range cur.Ops {
 		for f := 0; f < cur.Ops[i].F; f++ {
-			c := &seqScript{Engine: cur.Engine, FS: cur.FS, Ops: append([]sop(nil), cur.Ops...)}
+			c := &seqScript{Engine: cur.Engine, FS: cur.FS, CD: cur.CD, Ops: append([]sop(nil), cur.Ops...)}
 			c.Ops[i].F = f
 			if r := same(c); r != nil && r.div.At == best.div.At {
 				cur, best = c, r
@@ -371,7 +378,7 @@ func shrink(s *seqScript, d *divergence) (*seqScript, *seqRun) {
 			if cur.Ops[i].N == n || (n == anon && cur.Ops[i].K == kHostInst) {
 				continue
 			}
-			c := &seqScript{Engine: cur.Engine, FS: cur.FS, Ops: append([]sop(nil), cur.Ops...)}
+			c := &seqScript{Engine: cur.Engine, FS: cur.FS, CD: cur.CD, Ops: append([]sop(nil), cur.Ops...)}
 			c.Ops[i].N = n
 			if r := same(c); r != nil && r.div.At == best.div.At {
 				cur, best = c, r
@@ -380,7 +387,7 @@ func shrink(s *seqScript, d *divergence) (*seqScript, *seqRun) {
 		}
 	}
 	if cur.FS {
-		c := &seqScript{Engine: cur.Engine, FS: false, Ops: cur.Ops}
+		c := &seqScript{Engine: cur.Engine, FS: false, CD: cur.CD, Ops: cur.Ops}
 		if r := same(c); r != nil {
 			cur, best = c, r
 		}
@@ -435,12 +442,12 @@ func canonSeq(h []lop) string {
 // seqOfHistory lists a concurrent history's operations in call order as a
 // sequential script (used to tell sequentially reproducible defects from
 // genuinely concurrent ones).
-func seqOfHistory(engine int, h []lop) *seqScript {
-	s := &seqScript{Engine: engine}
+func seqOfHistory(engine int, cd bool, h []lop) *seqScript {
+	s := &seqScript{Engine: engine, CD: cd}
 	producer := map[int]int{}
 	for _, o := range h {
 		so := sop{K: o.Kind, N: o.Name, X: o.X, Ref: -1, F: o.F, S: o.S, N2: o.N2}
-		if o.Kind == kClose || o.Kind == kCloseX || o.Kind == kIsClosed {
+		if o.Kind.onHandle() {
 			p, ok := producer[o.ID]
 			if !ok {
 				continue
